@@ -208,6 +208,10 @@ package estargz
 // written), a non-negative inner offset, and the chunks of one file tile it: ChunkOffset is the number of payload bytes
 // recorded before it, each iteration records a non-empty chunk, only the last one leaves ChunkSize unset, and the loop
 // ends exactly at the file size. An entry that must open its own stream (landmarks) starts at inner offset 0 of a new one.
+//@ func (w *Writer) closeGz
+//@   props C03
+//@   requires w != nil
+//@   ensures[C03] result == nil ==> w.gz == nil
 //@ func (w *Writer) appendTar
 //@   props C03
 //@   requires wfW(w) && w.diffHash != nil && w.compressor != nil && r != nil
@@ -217,6 +221,12 @@ package estargz
 //@   loop 2 invariant[C03] 0 <= written && written <= totalSize && ent != nil && ent.InnerOffset == 0 && (forall j int :: 0 <= j && j < len(w.toc.Entries) ==> w.toc.Entries[j] != ent)
 //@   loop 2 decreases totalSize - written
 //@   loop 2 step[C03] len(w.toc.Entries) == prev(len(w.toc.Entries)) + 1 && w.toc.Entries[len(w.toc.Entries)-1].ChunkOffset == prev(written) && written > prev(written) && (written < totalSize ==> w.toc.Entries[len(w.toc.Entries)-1].ChunkSize == written - prev(written))
+// the two counters remembered as "start of the current stream" are taken at a stream boundary -- no stream is open at
+// that moment -- also when this is not the first AppendTar on the writer (chunks that share a stream record
+// Offset == that start and InnerOffset == uncompressed bytes since that start; a start taken in the middle of a stream
+// that an earlier AppendTar left open gives entries that cannot be read back)
+//@   assert[C03] after "prevOffset := w.cw.n" : w.gz == nil
+//@   assert[C03] after "prevOffsetUncompressed :=" : prevOffsetUncompressed == w.uncompressedCounter.n
 //@   assert[C03] after "io.Copy(remainDest" : drained == tarSrc[ref(tr)]
 //@   assert[C03] before "ent.ChunkOffset = written" : 0 <= ent.Offset
 //@   assert[C03] before "ent.ChunkOffset = written" : ent.Offset <= w.cw.n
